@@ -124,8 +124,8 @@ def oracle_class(p):
     x = np.asarray(p["x"])
     c = p["c"]
     cls = p["cls"]
-    o1 = C.make(cls, x, p["nfft"], 1.0, False)
-    o2 = C.make(cls, c * x, p["nfft"], 1.0, False)
+    o1 = C.make(cls, x, p["nfft"], 1.0, False, p.get("cfg"))
+    o2 = C.make(cls, c * x, p["nfft"], 1.0, False, p.get("cfg"))
     a1, a2 = np.asarray(o1.psd), np.asarray(o2.psd)
     fac = 1.0 if cls == "pmusic" else (abs(c) if cls == "pev" else abs(c) ** 2)
     if np.iscomplexobj(a2) or a1.shape != a2.shape or rel(a2, fac * a1) > 1e-6:
@@ -229,7 +229,13 @@ def gen(rng, nrng, tier):
         cls = C.CLASSES[i % len(C.CLASSES)]
         cplx = bool((i // len(C.CLASSES)) % 2)
         x = _data(nrng, 40, cplx)
-        yield ("class", {"cls": cls, "x": x, "c": _scalars(nrng, cplx, i // 2), "nfft": [None, 64, 65][i % 3]})
+        q = {"cls": cls, "x": x, "c": _scalars(nrng, cplx, i // 2), "nfft": [None, 64, 65][i % 3]}
+        if i % 2:
+            q["cfg"] = C.random_cfg(nrng, cls, len(x), boundary=(i % 8 == 7))
+            need = C.min_nfft(cls, len(x), q["cfg"])
+            if (q["nfft"] or len(x)) < need:
+                q["nfft"] = need
+        yield ("class", q)
     k = 48 if tier == "quick" else 600
     fns = ["burg", "aryule", "sper", "mtm", "burg"]
     for i in range(k):
